@@ -26,10 +26,23 @@ func IndexTable(db objects.Store, tblSum []byte, tbl *objects.Table, logger logr
 	)
 	logger = logger.WithName("IndexTable")
 	logger.Info("indexing table", "sum", tblSum)
+	for _, k := range tbl.PK {
+		if int(k) >= len(tbl.Columns) {
+			return fmt.Errorf("primary key index %d is out of range (%d columns)", k, len(tbl.Columns))
+		}
+	}
 	for i, sum := range tbl.Blocks {
 		blk, bb, err = objects.GetBlock(db, bb, sum)
 		if err != nil {
 			return fmt.Errorf("GetBlock: %v", err)
+		}
+		if len(blk) == 0 {
+			return fmt.Errorf("block %x at offset %d is empty", sum, i)
+		}
+		for _, row := range blk {
+			if len(row) != len(tbl.Columns) {
+				return fmt.Errorf("block %x at offset %d has a row with %d cells (%d columns)", sum, i, len(row), len(tbl.Columns))
+			}
 		}
 		if len(tbl.PK) > 0 {
 			tblIdx[i] = slice.IndicesToValues(blk[0], tbl.PK)
